@@ -13,6 +13,11 @@ oracle     : real verilog.parse / bench.parse -> resolve_tlib_cells -> real Logi
 correspond.: Lean model (Model/Netlist.lean through the compiled driver, fed with the statement list the generator rendered)
              == the real parsed circuit: node list (kind, name) in creation order, line list with pins, io list, and the
              connectivity table obtained by walking the real circuit.  Mismatch = broken tie.
+text level : Lean lexer + grammar models (Model/BenchText.lean, Model/VerilogText.lean; driver `benchparse` / `verilogparse`)
+             on the TEXT: for every generated text, fixed corner-case texts (TEXT_PROBES) and random small edits of generated
+             texts: lark on the real GRAMMAR string (no transformer) accepts <=> the model accepts; lark's tree == the model's
+             statement list (== the generator's); the model circuit built from the model's OWN parse == the real circuit, or
+             both raise (text_check).  Mismatch = broken tie.
 """
 import json, os, glob
 import numpy as np
@@ -36,7 +41,9 @@ RULE = ('random flat netlists (1-7 input bits, 1-5 output bits, 0-3 flip-flops/l
         'evaluation, port order, Verilog-vs-bench equivalence, and model-vs-code structure (nodes, lines with pins, ports, '
         'connectivity).  A second stream mutates statement lists to the edge of / out of the subset (duplicate names, buses on pins, '
         'unknown pins, width mismatch, undeclared ports, ...): model and code must both raise or build the same circuit.  '
-        'distinct = (format, library, branchforks, text); non-trivial = at least 3 statements and an output that takes both values')
+        'Text level: every generated text, about 140 fixed lexer/grammar corner-case texts and 1-3 random small edits per text (delete, '
+        'insert, replace, swap, cut, duplicate, truncate, join lines, snippets) through the Lean lexer+grammar model vs lark on the real '
+        'grammar vs the real parser.  distinct = (format, library, branchforks, text); non-trivial = at least 3 statements and an output that takes both values')
 
 VLIBS = ['NANGATE', 'SAED32', 'SAED90', 'GSC180']
 TEXT_FMTS = ('bench', 'verilog')      # formats whose lexer + grammar are modelled in Lean (Model/BenchText.lean, Model/VerilogText.lean)
@@ -931,8 +938,12 @@ def run(ck):
     ck.extra['distribution'] = dict(sorted(ck.hist.items()))
     ck.notes += [f'{k} (x{v})' for k, v in notes.items()]
     ck.assumptions += [
-        'lark (grammar, lexer), Python dict/str semantics and NumPy are exercised through generated texts, not modelled; the Lean '
-        'model starts at the statement list handed to VerilogTransformer / BenchTransformer',
+        'the lexer and grammar are modelled in Lean by a hand-written contextual lexer + recursive-descent parser (round-trip theorems '
+        'in Props/C11.lean); that lark implements the GRAMMAR strings as this model reads them is checked by correspondence on generated, '
+        'fixed corner-case and randomly edited texts (accept/reject, parse tree, resulting circuit), not proved; Python dict/str semantics '
+        'and NumPy are exercised, not modelled',
+        "text level, outside the modelled domain (counted as text:verilog:unsupported-name, not compared): an escaped identifier that "
+        "contains an apostrophe but is not of the sized-constant shape (sigsel would hand it to Python's int())",
         'supported subset: named pin connections to single-bit selections; every port declared input/output; distinct instance, '
         'port-bit and pin names; equal widths on both sides of an assign; no signal name contains ~ or \'',
         'cell functions come from a hand-written datasheet (harness/c11_cells.py) whose pin names/directions are checked against '
